@@ -2,6 +2,7 @@
 from __future__ import annotations
 
 import itertools
+import warnings
 
 from mc import core, explorer
 from mc.core import Agg, V
@@ -541,6 +542,68 @@ def unit_catalogue(unit):
     return agg
 
 
+def unit_arrangements(unit):
+    """"element order matters" in two dimensions: the SAME values arranged differently over the cells of a grid - every permutation
+    of 4 distinct values over 2x2, and every transposition of two cells of 2x3 / 3x2 / 3x3 grids - give different fingerprints
+    when the grid is (a) a table, (b) one nested list or tuple cell, (c) a vector whose elements are list cells, (d) a vector of
+    vectors of unequal length; and a single write that turns one arrangement into another is noticed"""
+    from serif import Vector, Table
+    agg = Agg()
+
+    def grids():
+        base = [1, 2, 3, 4]
+        for perm in itertools.permutations(base):
+            yield "2x2", [[1, 2], [3, 4]], [list(perm[0:2]), list(perm[2:4])]
+        for r, c in ((2, 3), (3, 2), (3, 3)):
+            g0 = [[10 * i + j + 1 for j in range(c)] for i in range(r)]
+            cells = [(i, j) for i in range(r) for j in range(c)]
+            for (i1, j1), (i2, j2) in itertools.combinations(cells, 2):
+                g1 = [row[:] for row in g0]
+                g1[i1][j1], g1[i2][j2] = g1[i2][j2], g1[i1][j1]
+                yield f"{r}x{c}", g0, g1
+    makers = {
+        "table (grid rows = columns)": lambda g: Table([Vector(list(col), name=f"c{k}") for k, col in enumerate(g)]),
+        "one nested-list cell": lambda g: Vector([[list(r_) for r_ in g], 7]),
+        "one nested-tuple cell": lambda g: Vector([tuple(tuple(r_) for r_ in g)]),
+        "vector of list cells": lambda g: Vector([list(r_) for r_ in g] + [[0]]),
+        "vector of vectors (ragged)": lambda g: Vector([Vector(list(r_)) for r_ in g] + [Vector([0])]),
+        "table of tuple cells": lambda g: Table([Vector([tuple(r_) for r_ in g], name="a"), Vector(list(range(len(g))), name="b")]),
+    }
+    for shape, g0, g1 in grids():
+        if g0 == g1:
+            continue
+        for mname, mk in makers.items():
+            agg.evals += 1; agg.transitions += 2; agg.states += 1; agg.nontrivial += 1; agg.compared += 1
+            case = {"holder": mname, "shape": shape, "arrangement_1": g0, "arrangement_2": g1}
+            try:
+                with warnings.catch_warnings():
+                    warnings.simplefilter("ignore")
+                    f0, f1 = mk(g0).fingerprint(), mk(g1).fingerprint()
+            except Exception as e:
+                agg.skipped["holder-not-buildable-" + type(e).__name__] += 1
+                continue
+            if f0 == f1:
+                agg.violation(V("fingerprint.arrangements", "same-values-arranged-differently-have-one-fingerprint", case))
+            else:
+                agg.outcomes["order-matters"] += 1
+        # one WRITE that replaces a nested cell by the other arrangement (cached before)
+        agg.evals += 1; agg.transitions += 2; agg.compared += 1
+        case = {"holder": "nested-list cell written in place", "shape": shape, "arrangement_1": g0, "arrangement_2": g1}
+        try:
+            v = Vector([[list(r_) for r_ in g0], 7])
+            f0 = v.fingerprint()
+            v[0:1] = [[list(r_) for r_ in g1]]
+            f1 = v.fingerprint()
+        except Exception as e:
+            agg.skipped["write-refused"] += 1
+            continue
+        if f0 == f1:
+            agg.violation(V("fingerprint.arrangements", "write-to-an-unequal-value-not-noticed", case))
+        else:
+            agg.outcomes["change-noticed"] += 1
+    return agg
+
+
 def unit_promotions(unit):
     """cached fingerprint, then a PROMOTING write into one position (int->float->complex, date->datetime, also NaN):
     every element's representation may change, the fingerprint must still equal a freshly built vector's"""
@@ -738,6 +801,8 @@ def check(ctx):
     for p in core.pmap(unit_promotions, [("promote",)]):
         agg.merge(p)
     for p in core.pmap(unit_containers, [("containers",)]):
+        agg.merge(p)
+    for p in core.pmap(unit_arrangements, [("arrangements",)]):
         agg.merge(p)
     for p in core.pmap(unit_long, [("long", n) for n in (17, 32, 33, 64, 65, 129)]):
         agg.merge(p)
